@@ -115,7 +115,7 @@ def an_old_trace(E, mc, g):
     return old, inner, pre
 
 
-@task("mask.edit", props=["C01", "C05", "C08", "C14", "C16", "C23"], functions=FUNCS)
+@task("mask.edit", props=["C01", "C05", "C06", "C08", "C14", "C16", "C23"], functions=FUNCS)
 def t_edit(E):
     mc, g = combinator(E)
     T = E.I.T
@@ -174,4 +174,20 @@ def t_edit(E):
     E.prove("C08.MaskCombinator.edit.nochange_sound", E.Implies(
         E.I.T.all_nochange(rd), E.eq(E.method(new, "get_retval"), E.method(old, "get_retval"))))
     E.prove("C05.MaskCombinator.edit.bwd_is_update", isinstance(bwd, Obj) and bwd.cls.name == "Update")
+    # C06: the real edit executed a second time, on its own output, with its own backward request and argdiffs that lead back
+    # to the original flag and inner arguments (C06 for the inner function is assumed through theory/gfi.py c06_for_callee)
+    back_tail = E.opaque("back_inner_argdiffs", "tuple")
+    E.assume(E.And(T.d_is_tree(back_tail.t), T.d_primal(back_tail.t) == T.tr_args(old_inner.t)))
+    back_ad = TupleT((diff(E, pre, UnknownChange(E)),), back_tail.t)
+    st, val = E.attempt(lambda: E.method(mc, "edit", key(E, "key2"), new, bwd, back_ad))
+    E.require("C06.MaskCombinator.edit.backward_request_can_be_applied", st == "ok")
+    new2, w2, _, _ = val
+    restored = E.And(E.eq(E.method(new2, "get_score"), E.method(old, "get_score")),
+                     E.eq(E.method(new2, "get_choices"), E.method(old, "get_choices")),
+                     E.eq(E.method(new2, "get_args"), E.method(old, "get_args")),
+                     E.eq(E.method(new2, "get_retval").fields["flag"], pre),
+                     E.Implies(pre, E.eq(E.method(new2, "get_retval").fields["value"], E.method(old_inner, "get_retval"))),
+                     E.eq(w2, E.I.unaryop("USub", w)))
+    E.prove("C06.MaskCombinator.edit.bwd_restores_when_the_flag_is_unchanged", E.Implies(E.eq(pre, post), restored))
+    E.prove("C06.MaskCombinator.edit.bwd_restores_across_a_flag_flip", E.Implies(E.Not(E.eq(pre, post)), restored))
     E.refutable("mask.edit", E.eq(w, SReal(T.edit_w(g.t, ik, itr, irq, iad))))
